@@ -16,6 +16,27 @@ pub(crate) mod verif_dec {
     use std::io::{Read, Write};
 
     pub const NONE: usize = usize::MAX;
+    /// native replay helper: the REAL decrypt_chunks on an in-memory stream
+    pub fn native_decrypt(stream: &[u8], out: &mut Vec<u8>, key: &[u8], aad: &[u8], cs: usize) -> bool {
+        let mut rd: &[u8] = stream;
+        decrypt_chunks(&mut rd, out, key, aad, cs as u32).is_ok()
+    }
+    /// native replay: REAL[i] = ct || tag that the real AEAD produces for authentic chunk i
+    pub static mut REAL: [[u8; 19]; 4] = [[0; 19]; 4];
+    pub static mut NAT_N: usize = 0;
+    pub static mut NAT_AAD: [u8; 4] = [0; 4];
+    pub fn native_seal_table(n: usize, aad: &[u8], key: &[u8]) {
+        unsafe {
+            NAT_N = n;
+            let mut i = 0;
+            while i < n {
+                let e = tget(BASE + i);
+                let c = crate::chapoly_encrypt_noise(key, i as u64, &e.ad[..e.adlen], &e.pt[..e.ptlen]);
+                REAL[i][..c.len()].copy_from_slice(&c);
+                i += 1;
+            }
+        }
+    }
     pub static mut DEC_AADLEN: usize = 0;
     pub static mut CT_CONSUMED: usize = 0; // ciphertext bytes handed to the decryptor so far
     pub static mut CT_RELEASED: usize = 0; // 32+len of every chunk whose plaintext has been written
@@ -88,6 +109,19 @@ pub(crate) mod verif_dec {
             self.writes += 1;
             if self.faulted { self.after_fault = true; }
             if c == self.wfault_at { self.faulted = true; return Err(io_err(self.fault_kind)); }
+            if native() {
+                // native replay (real AEAD, no open log): what is written must be the next non-empty authentic chunk, whole
+                let mut i = self.released;
+                while i < unsafe { NAT_N } && tget(unsafe { BASE } + i).ptlen == 0 { i += 1; }
+                if i >= unsafe { NAT_N } { self.unauth = true; } else {
+                    let e = tget(unsafe { BASE } + i);
+                    if buf.len() != e.ptlen || buf != &e.pt[..e.ptlen] { self.wrong = true; }
+                    self.released = i + 1;
+                    unsafe { CT_RELEASED += 32 + e.ptlen; }
+                }
+                self.len += buf.len();
+                return Ok(buf.len());
+            }
             let p = unsafe { PENDING };
             if p == NONE {
                 // bytes offered although no authenticated chunk is waiting to be released
@@ -125,10 +159,22 @@ pub(crate) mod verif_dec {
     // ---------------------------------------------------------------- (A) the attacker's stream
     /// A byte source of unconstrained content and unconstrained length (<= `remaining`): every byte handed out is
     /// a fresh `kani::any()`. Delivers everything available (so read_exact is one step); can fail at a chosen call.
-    pub struct AnyReader { pub remaining: usize, pub calls: usize, pub maxbuf: usize, pub fault_at: usize, pub fault_kind: u8, pub faulted: bool }
+    pub struct AnyReader { pub remaining: usize, pub calls: usize, pub maxbuf: usize, pub fault_at: usize, pub fault_kind: u8, pub faulted: bool, pub nat_body: bool }
     impl AnyReader {
         fn fill(&mut self, buf: &mut [u8], k: usize) {
             vrep!(20, j, { if j < k { buf[j] = kani::any(); } });
+            if native() && k >= 16 && self.nat_body {
+                // native replay: bytes that equal the ABSTRACT ct||tag of authentic chunk i are replaced by what the REAL
+                // AEAD produces for chunk i (the ideal model accepts exactly those; everything else stays as the solver chose it)
+                let mut i = 0;
+                while i < unsafe { NAT_N } {
+                    let e = tget(unsafe { BASE } + i);
+                    if k == e.ptlen + 16 && buf[..e.ptlen] == e.ct[..e.ptlen] && buf[e.ptlen..k] == e.tag.to_le_bytes() {
+                        buf[..k].copy_from_slice(unsafe { &REAL[i][..k] });
+                    }
+                    i += 1;
+                }
+            }
             self.remaining -= k;
             unsafe {
                 CT_CONSUMED += k;
@@ -166,6 +212,7 @@ pub(crate) mod verif_dec {
             }
             let k = buf.len();
             self.fill(buf, k);
+            self.nat_body = !self.nat_body; // the decryptor alternates header (16) and body (len+16) requests
             Ok(())
         }
     }
@@ -180,7 +227,7 @@ pub(crate) mod verif_dec {
         let plen = authentic_file(n, cs, aad, 0x11, 0);
         let total: usize = kani::any();
         kani::assume(total <= maxn * (32 + cs) + 2);
-        let mut r = AnyReader { remaining: total, calls: 0, maxbuf: 0, fault_at: NONE, fault_kind: 3, faulted: false };
+        let mut r = AnyReader { remaining: total, calls: 0, maxbuf: 0, fault_at: NONE, fault_kind: 3, faulted: false, nat_body: false };
         let mut w = PSink::new();
         if faults {
             let which: u8 = kani::any();
@@ -196,18 +243,20 @@ pub(crate) mod verif_dec {
             }
         }
         let key = [0x11u8; 32];
+        let nat = native();
+        if nat { native_seal_table(n, aad, &key); }
         let res = decrypt_chunks(&mut r, &mut w, &key, aad, cs as u32);
         let opened = unsafe { OPENED };
         // ---- C04: what has been released, at every point
         assert!(!w.unauth, "[C04,C03] no byte is written unless a chunk has just been authenticated");
         assert!(!w.wrong, "[C04,C03] what is written is exactly the plaintext of the authenticated chunk, whole");
         assert!(unsafe { OPEN_ORDER_OK }, "[C04,C03] chunks authenticate only in their original order (chunk k under nonce k)");
-        assert!(w.released <= opened && opened <= n, "[C04] released chunks are a prefix of the authenticated ones");
+        if !nat { assert!(w.released <= opened && opened <= n, "[C04] released chunks are a prefix of the authenticated ones"); }
         assert!(!w.after_fault, "[C04,C10] nothing is written or flushed after a failure has been reported by the sink");
         // ---- C03: acceptance
         if res.is_ok() {
-            assert!(opened == n && w.released == n, "[C03,C04] success only after every chunk up to the one flagged final has been authenticated and written");
-            assert!(w.len == plen, "[C03] on success the output is the complete original plaintext");
+            if !nat { assert!(opened == n && w.released == n, "[C03,C04] success only after every chunk up to the one flagged final has been authenticated and written"); }
+            assert!(w.len == plen, "[C03,C04] on success the output is the complete original plaintext (every chunk up to the final one, nothing else)");
             assert!(r.remaining == 0, "[C03,C04] success only if the ciphertext ends right after the final chunk");
             assert!(unsafe { CT_CONSUMED } == 32 * n + plen, "[C03] an accepted file has exactly the authentic length");
             assert!(w.flushed_len == w.len, "[C10,C12] on success everything written has been flushed");
@@ -225,7 +274,7 @@ pub(crate) mod verif_dec {
         // ---- C09 / C11: bounded work
         assert!(r.maxbuf <= cs + 16, "[C09,C11] no read request exceeds chunk size + 16, whatever the header says");
         assert!(unsafe { MAX_AEAD_IN } <= cs + 16, "[C09,C11] no AEAD input exceeds chunk size + 16");
-        assert!(unsafe { MAX_CT_LAG } <= 2 * (cs + 32), "[C11] at most two records of ciphertext consumed beyond what has been released");
+        if !nat { assert!(unsafe { MAX_CT_LAG } <= 2 * (cs + 32), "[C11] at most two records of ciphertext consumed beyond what has been released"); }
         kani::cover!(res.is_ok() && n == maxn);
         kani::cover!(res.is_ok() && n == 1 && plen == 0);
         kani::cover!(res.is_err() && w.released == maxn - 1 && opened == maxn);
@@ -238,30 +287,35 @@ pub(crate) mod verif_dec {
     /// C03/C04/C09/C11: cs=2, authentic file of 1..2 chunks, attacker stream of ANY content and any length 0..70.
     #[kani::proof]
     #[kani::stub(crate::chapoly_decrypt_noise, open_tracking)]
+    #[kani::stub(crate::verif_common::native, crate::verif_common::native_false)]
     #[kani::unwind(4)]
     pub fn dec_attack_cs2_n2() { dec_attack(2, 2, false, false); }
 
     /// Same in password mode (aad = magic).
     #[kani::proof]
     #[kani::stub(crate::chapoly_decrypt_noise, open_tracking)]
+    #[kani::stub(crate::verif_common::native, crate::verif_common::native_false)]
     #[kani::unwind(4)]
     pub fn dec_attack_cs2_n2_pass() { dec_attack(2, 2, true, false); }
 
     /// cs=1, 1..3 chunks: deep enough for "drop a middle chunk" / "skip ahead" to be expressible.
     #[kani::proof]
     #[kani::stub(crate::chapoly_decrypt_noise, open_tracking)]
+    #[kani::stub(crate::verif_common::native, crate::verif_common::native_false)]
     #[kani::unwind(5)]
     pub fn dec_attack_cs1_n3() { dec_attack(1, 3, false, false); }
 
     /// cs=3, 1..4 chunks (thorough).
     #[kani::proof]
     #[kani::stub(crate::chapoly_decrypt_noise, open_tracking)]
+    #[kani::stub(crate::verif_common::native, crate::verif_common::native_false)]
     #[kani::unwind(6)]
     pub fn dec_attack_cs3_n4() { dec_attack(3, 4, false, false); }
 
     /// C10 (decrypt side): additionally one fault at a solver-chosen read / write / flush call.
     #[kani::proof]
     #[kani::stub(crate::chapoly_decrypt_noise, open_tracking)]
+    #[kani::stub(crate::verif_common::native, crate::verif_common::native_false)]
     #[kani::unwind(4)]
     pub fn dec_faults_cs2_n2() { dec_attack(2, 2, false, true); }
 
@@ -379,16 +433,19 @@ pub(crate) mod verif_dec {
 
     #[kani::proof]
     #[kani::stub(crate::chapoly_decrypt_noise, open_tracking)]
+    #[kani::stub(crate::verif_common::native, crate::verif_common::native_false)]
     #[kani::unwind(4)]
     pub fn dec_model_cs2_n3() { dec_model(2, 3, false); }
 
     #[kani::proof]
     #[kani::stub(crate::chapoly_decrypt_noise, open_tracking)]
+    #[kani::stub(crate::verif_common::native, crate::verif_common::native_false)]
     #[kani::unwind(4)]
     pub fn dec_model_cs2_n3_pass() { dec_model(2, 3, true); }
 
     #[kani::proof]
     #[kani::stub(crate::chapoly_decrypt_noise, open_tracking)]
+    #[kani::stub(crate::verif_common::native, crate::verif_common::native_false)]
     #[kani::unwind(6)]
     pub fn dec_model_cs3_n5() { dec_model(3, 5, false); }
 
@@ -417,6 +474,7 @@ pub(crate) mod verif_dec {
     /// std's real read_exact loop): same result.
     #[kani::proof]
     #[kani::stub(crate::chapoly_decrypt_noise, open_tracking)]
+    #[kani::stub(crate::verif_common::native, crate::verif_common::native_false)]
     #[kani::unwind(4)]
     pub fn dec_short_reads_cs1() {
         unsafe { DEC_AADLEN = 0; BASE = 0; }
@@ -673,6 +731,7 @@ pub(crate) mod verif_hdr_dec {
     /// key) fails on the very first chunk, for EVERY byte stream, and releases nothing.
     #[kani::proof]
     #[kani::stub(crate::chapoly_decrypt_noise, crate::decrypt::verif_dec::open_tracking)]
+    #[kani::stub(crate::verif_common::native, crate::verif_common::native_false)]
     #[kani::unwind(4)]
     pub fn dec_wrong_key_cs2() {
         use crate::decrypt::verif_dec::*;
@@ -683,7 +742,7 @@ pub(crate) mod verif_hdr_dec {
         let plen = authentic_file(n, 2, &magic, 0x11, 0);
         let total: usize = kani::any();
         kani::assume(total <= 70);
-        let mut r = AnyReader { remaining: total, calls: 0, maxbuf: 0, fault_at: NONE, fault_kind: 3, faulted: false };
+        let mut r = AnyReader { remaining: total, calls: 0, maxbuf: 0, fault_at: NONE, fault_kind: 3, faulted: false, nat_body: false };
         let mut w = PSink::new();
         let other_key = [0x22u8; 32];
         let res = decrypt_chunks(&mut r, &mut w, &other_key, &magic, 2);
